@@ -77,8 +77,9 @@ def observe_pack(rep, ddf, path, spec, pk):
     import spatialpandas.dask as spd
     proxy = _DaskProxy(spd.dask)
     spd.dask = proxy
+    returned = None
     try:
-        ddf.pack_partitions_to_parquet(path, npartitions=spec['npartitions'], p=spec.get('p', 6))
+        returned = ddf.pack_partitions_to_parquet(path, npartitions=spec['npartitions'], p=spec.get('p', 6))
     finally:
         spd.dask = proxy._real
     infos = [r for r in proxy.log
@@ -86,8 +87,8 @@ def observe_pack(rep, ddf, path, spec, pk):
                                                    for x in r)]
     if len(infos) != 1:
         rep.count('pack_write_info_not_observed')
-        return None
-    return list(infos[0])
+        return None, returned
+    return list(infos[0]), returned
 
 
 def pack_case(rep, ds, write_info, pk):
@@ -122,11 +123,79 @@ def pack_case(rep, ds, write_info, pk):
         rep.nontrivial(('pack-compacted', json.dumps(ds['spec'], sort_keys=True)))
 
 
+def read_pieces(rep, path, spec):
+    """the part files of a dataset, each read on its own (independently of the library's ordering)"""
+    from spatialpandas.io import read_parquet
+    files = sorted(f for f in os.listdir(path) if f.endswith('.parquet'))
+    pieces = []
+    for i in range(len(files)):
+        f = os.path.join(path, f'part.{i}.parquet')
+        if not os.path.exists(f):
+            rep.violation('part-names', f'part files are not numbered 0..{len(files) - 1}',
+                          {'stream': 'dataset', 'spec': spec, 'files': files})
+            return None
+        pieces.append(read_parquet(f))
+    return pieces
+
+
+def build_filtered(rep, sc, spec):
+    """three-step history: a frame that already carries cached partition bounds (read back with
+    read_parquet_dask, or the frame pack_partitions_to_parquet returned) -> boolean-mask row filter
+    -> to_parquet.  The filter empties some partitions, shrinks others and leaves the rest alone; the
+    metadata written must describe the rows stored, not the frame the rows were taken from."""
+    import random
+    from spatialpandas.io import read_parquet_dask
+    base = build_dataset(rep, sc, spec['filtered_from'])
+    if base is None:
+        return None
+    via = spec.get('via', 'read_back')
+    r = base['returned'] if via == 'returned' and base.get('returned') is not None \
+        else read_parquet_dask(base['path'])
+    if not r._partition_bounds:
+        rep.count('filtered:source-without-cached-bounds')
+    rng = random.Random(spec['seed'])
+    keep = []
+    shift = rng.randrange(3)
+    for i, p in enumerate(base['pieces']):
+        vs = [int(v) for v in p['v']]
+        mode = (i + shift) % 3
+        if mode == 0:
+            continue                                   # partition emptied
+        if mode == 1 and len(vs) > 1:
+            keep += rng.sample(vs, max(1, len(vs) // 2))   # extent (probably) shrinks
+        else:
+            keep += vs
+    src = r
+    if spec.get('select_columns'):
+        src = src[list(src.columns)]                   # same rows: cached bounds legitimately carried along
+    if spec.get('mask', 'isin') == 'isin':
+        f = src[src['v'].isin(keep)]
+    else:
+        t = sorted(keep)[len(keep) // 2] if keep else 0
+        f = src[src['v'] >= t]
+    path = os.path.join(sc.dir, spec.get('dirname') or 'flt_' + str(spec['seed']))
+    f.to_parquet(path, compression=spec.get('compression', 'snappy'))
+    pieces = read_pieces(rep, path, spec)
+    if pieces is None:
+        return None
+    nempty = sum(1 for p in pieces if len(p) == 0)
+    shrunk = sum(1 for p, q in zip(pieces, base['pieces'])
+                 if len(p) and any(_tb(p[c]) != _tb(q[c]) for c in base['geom']))
+    rep.count(f'filtered:{via}:{spec["filtered_from"]["writer"]}')
+    rep.count('filtered:partitions-emptied', nempty)
+    rep.count('filtered:partitions-shrunk', shrunk)
+    if shrunk or nempty:
+        rep.nontrivial(('filtered', json.dumps(spec, sort_keys=True, default=str)))
+    return {'path': path, 'pieces': pieces, 'geom': base['geom'], 'frame': None, 'spec': spec, 'returned': None}
+
+
 def build_dataset(rep, sc, spec, pk=None):
     """write one dataset; returns dict(path, pieces=[frame per part file i], geom=[names])"""
     import dask.dataframe as dd
     import random
     from spatialpandas.io import read_parquet
+    if spec.get('filtered_from'):
+        return build_filtered(rep, sc, spec)
     rng = random.Random(spec['seed'])
     k1, k2 = spec['kinds']
     n = spec['nrows']
@@ -142,26 +211,20 @@ def build_dataset(rep, sc, spec, pk=None):
             idx = np.array([-1] * min(h, n) + list(range(min(h, n), n)), dtype='int64')
             df[c] = arr.take(idx, allow_fill=True)
     ddf = dd.from_pandas(df, npartitions=spec['npartitions'])
-    path = sc.new('ds' + spec.get('tag', ''))
+    path = os.path.join(sc.dir, spec['dirname']) if spec.get('dirname') else sc.new('ds' + spec.get('tag', ''))
+    returned = None
     if spec['writer'] == 'to_parquet':
         ddf.to_parquet(path, compression=spec.get('compression', 'snappy'))
     elif spec['writer'] == 'plain':
         # Dask's own writer: a dataset without spatialpandas metadata
         dd.to_parquet(ddf, path, engine='pyarrow', write_metadata_file=True)
     else:
-        write_info = observe_pack(rep, ddf, path, spec, pk)
-    files = sorted(f for f in os.listdir(path) if f.endswith('.parquet'))
-    nfiles = len(files)
-    pieces = []
-    for i in range(nfiles):
-        f = os.path.join(path, f'part.{i}.parquet')
-        if not os.path.exists(f):
-            rep.violation('part-names', f'part files are not numbered 0..{nfiles - 1}',
-                          {'stream': 'dataset', 'spec': spec, 'files': files})
-            return None
-        pieces.append(read_parquet(f))
+        write_info, returned = observe_pack(rep, ddf, path, spec, pk)
+    pieces = read_pieces(rep, path, spec)
+    if pieces is None:
+        return None
     ds = {'path': path, 'pieces': pieces, 'geom': [c for c in df.columns if c in ('ga', 'gb')],
-          'frame': df, 'spec': spec}
+          'frame': df, 'spec': spec, 'returned': returned}
     if spec['writer'] == 'pack' and write_info is not None and pk is not None:
         pack_case(rep, ds, write_info, pk)
     return ds
@@ -216,7 +279,8 @@ def check_read(rep, datasets, how, geometry, boxes, rb_cases, rb_res, rb_meta, c
             return None
         vs = list(got['v'])
         have = set(vs)
-        kept = [i for i, s in enumerate(ids) if s and set(s) <= have]
+        # a part file without rows has a NaN extent: never selected by a box, always loaded without one
+        kept = [i for i, s in enumerate(ids) if (set(s) <= have if s else box is None)]
         exp_vs = [v for i in kept for v in ids[i]]
         if vs != exp_vs:
             rep.violation('rows-not-whole-partitions',
@@ -472,7 +536,10 @@ def run_corpus_entry(rep, sc, ent, acc):
 def run(rep):
     import dask
     tier = getattr(rep, 'tier_run', rep.tier)
-    rep.rule = ('datasets of 2 geometry columns (kind pairs over all 7 kinds, 5 subtypes, missing / empty '
+    rep.rule = ('[also: lists of 2-3 datasets given in an order that is not the sorted path order (b_, a_, a nested '
+                'directory; >= 2 partitions each, one >= 11); datasets written from a frame carrying cached bounds '
+                '(read back / returned by pack) after a boolean-mask filter that empties some partitions and shrinks '
+                'others] datasets of 2 geometry columns (kind pairs over all 7 kinds, 5 subtypes, missing / empty '
                 'elements, optional leading block of missing rows giving NaN-extent partitions) written by '
                 'DaskGeoDataFrame.to_parquet and pack_partitions_to_parquet with 1..16 partitions; read singly, '
                 'as a list and as a glob of two datasets, geometry= None / other column; boxes touching a recorded '
@@ -501,34 +568,60 @@ def run(rep):
         for si, spec in enumerate(specs):
             sub = U.Scratch()
             with sub as s2:
-                ds = build_dataset(rep, s2, {**spec, 'tag': 'a'}, pk)
+                # directory names whose sorted order is not the order they are given in
+                ds = build_dataset(rep, s2, {**spec, 'dirname': 'ds_b_west'}, pk)
                 if ds is None:
                     continue
                 dump_cases([ds], *dm)
                 col0 = ds['geom'][0]
                 other = ds['geom'][1]
-                rows0 = [tuple(float('nan') if v is None else float(v.v) for v in _tb(p[col0]))
-                         for p in ds['pieces']]
-                rows1 = [tuple(float('nan') if v is None else float(v.v) for v in _tb(p[other]))
-                         for p in ds['pieces']]
+
+                def extents(d, col):
+                    return [tuple(float('nan') if v is None else float(v.v) for v in _tb(p[col]))
+                            for p in d['pieces']]
+                rows0, rows1 = extents(ds, col0), extents(ds, other)
                 quick = tier == 'quick'
                 b0 = boxes_for(rep.rng, rows0, nbox)
                 b0 = b0[:5] + _sample(rep.rng, b0[5:], 7 if quick else len(b0) - 5)
                 check_read(rep, [ds], 'single', None, b0, *acc)
                 check_read(rep, [ds], 'single', other,
                            _sample(rep.rng, boxes_for(rep.rng, rows1, nbox), 4 if quick else 16), *acc)
-                # two datasets by list / glob every third dataset
+                # several datasets by list (given order != sorted path order, one nested) / glob
                 if si % 3 == 0:
-                    spec2 = {**spec, 'seed': spec['seed'] + 1, 'tag': 'b', 'voffset': 100000,
-                             'npartitions': rep.rng.choice([1, 2, 11, 12]), 'missing_head': 0}
+                    many = spec['npartitions'] >= 11
+                    spec2 = {**spec, 'seed': spec['seed'] + 1, 'dirname': 'ds_a_east', 'voffset': 100000,
+                             'npartitions': rep.rng.choice([2, 3] if many else [11, 12]), 'missing_head': 0}
                     spec2['nrows'] = max(spec2['npartitions'] * 2, 6)
+                    spec4 = {**spec, 'seed': spec['seed'] + 3, 'dirname': os.path.join('dr_nest', 'in.2', 'c_mid'),
+                             'voffset': 300000, 'npartitions': 2, 'missing_head': 0, 'nrows': 6,
+                             'writer': 'to_parquet'}
                     ds2 = build_dataset(rep, s2, spec2)
-                    if ds2 is not None:
-                        # glob expansion is alphabetical: dsa* before dsb*
+                    ds4 = build_dataset(rep, s2, spec4)
+                    if ds2 is not None and ds4 is not None:
                         b2 = _sample(rep.rng, boxes_for(rep.rng, rows0, nbox), 3 if quick else 8)
+                        # given as b, a: not in sorted path order
                         check_read(rep, [ds, ds2], 'list', rep.rng.choice([None, other]), b2, *acc)
-                        check_read(rep, [ds, ds2], 'glob', None, b2[:2], *acc)
+                        # the glob expands alphabetically: ds_a_east before ds_b_west
+                        check_read(rep, [ds2, ds], 'glob', None, b2[:2], *acc)
                         check_read(rep, [ds2, ds], 'list', None, b2[:1], *acc)
+                        check_read(rep, [ds, ds4, ds2], 'list', None, b2[:2], *acc)
+                        check_read(rep, [ds2, ds4, ds], 'list', other, b2[:1], *acc)
+                # provenance: cached bounds -> boolean-mask filter -> to_parquet
+                if si % 2 == 0:
+                    fspec = {'writer': 'filtered', 'filtered_from': {**spec, 'dirname': 'src_of_filtered'},
+                             'seed': spec['seed'] + 7, 'dirname': 'flt_out',
+                             'via': 'returned' if spec['writer'] == 'pack' and si % 4 == 0 else 'read_back',
+                             'mask': 'isin' if si % 3 else 'threshold', 'select_columns': bool(si % 5 == 0),
+                             'compression': spec.get('compression', 'snappy')}
+                    dsf = build_dataset(rep, s2, fspec)
+                    if dsf is not None:
+                        dump_cases([dsf], *dm)
+                        bf = boxes_for(rep.rng, extents(dsf, col0), nbox)
+                        bf = bf[:2] + _sample(rep.rng, bf[7:], 3 if quick else 8)
+                        check_read(rep, [dsf], 'single', None, bf, *acc)
+                        check_read(rep, [dsf], 'single', other,
+                                   _sample(rep.rng, boxes_for(rep.rng, extents(dsf, other), nbox), 2 if quick else 4),
+                                   *acc)
                 if si % 6 == 1:
                     # ... and a dataset written by Dask's own writer (no spatialpandas metadata) next to it
                     spec3 = {**spec, 'seed': spec['seed'] + 2, 'tag': 'c', 'voffset': 200000, 'writer': 'plain',
@@ -592,11 +685,18 @@ def replay(rep, rp):
                                            'boxes': [_unbox(rp['box'])] if rp.get('box') else []}, acc)
             else:
                 dss = []
+                def fix(sp):
+                    sp = dict(sp)
+                    for k in ('kinds', 'subtypes'):
+                        if k in sp:
+                            sp[k] = tuple(sp[k])
+                    if sp.get('filtered_from'):
+                        sp['filtered_from'] = fix(sp['filtered_from'])
+                    return sp
                 for j, spec in enumerate(specs):
-                    spec = dict(spec)
-                    spec['kinds'] = tuple(spec['kinds'])
-                    spec['subtypes'] = tuple(spec['subtypes'])
-                    spec['tag'] = 'ab'[j] if rp.get('how') != 'list' or True else spec.get('tag', '')
+                    spec = fix(spec)
+                    if not spec.get('dirname'):
+                        spec['tag'] = 'abcd'[j]
                     dss.append(build_dataset(rep, sc, spec, pkr))
                 if any(d is None for d in dss):
                     return False
